@@ -169,7 +169,18 @@ func (bc *Blockchain) Synchronize() {
 
 					if bc.SyncLastRequestHeight > stats.TopHeight {
 						if n > 20 { // after 2 seconds, we can assume the node will not respond to us with the blocks
-							bc.SyncLastRequestHeight = stats.TopHeight
+							// The requested blocks have not extended our main chain. They are lost only if we do not hold
+							// a block at the last requested height at all: blocks of a branch that is not (yet) heavier
+							// than ours are stored as an alternative chain, which does not move TopHeight. In that case
+							// continue above them, otherwise a branch that overtakes our chain only beyond the request
+							// window would never be downloaded.
+							held := stats.TopHeight
+							for _, tip := range stats.Tips {
+								held = max(held, tip.Height)
+							}
+							if held < bc.SyncLastRequestHeight || bc.SyncLastRequestHeight >= bc.SyncHeight {
+								bc.SyncLastRequestHeight = stats.TopHeight
+							}
 							n = 0
 						} else {
 							n++
